@@ -179,7 +179,7 @@ search_page_fwd(cache_page *vtp, vbi_bool wrapped, void *p)
 	if (start >= stop) {
 		if (wrapped && _this >= stop)
 			return -1; /* all done, abort */
-	} else if (_this < start || _this >= stop)
+	} else if (wrapped || _this < start || _this >= stop)
 		return -1; /* all done, abort */
 
 	if (vtp->function != PAGE_FUNCTION_LOP)
@@ -275,7 +275,7 @@ search_page_rev(cache_page *vtp, vbi_bool wrapped, void *p)
 	if (start <= stop) {
 		if (wrapped && this <= stop)
 			return -1; /* all done, abort */
-	} else if (this > start || this <= stop)
+	} else if (wrapped || this > start || this <= stop)
 		return -1; /* all done, abort */
 
 	if (vtp->function != PAGE_FUNCTION_LOP)
